@@ -22,7 +22,7 @@ func init() {
 			"Boundary is compared as a point set with {p: locate(g,p)=B} on every cell of the exact arrangement, PointOnSurface is located exactly. non-trivial = geometry of dimension >= 1 with a non-empty boundary or an areal geometry; distinct by WKB",
 		Assumptions:      []string{"exact locate per OGC (mod-2 rule) is the reference; collections are judged structurally (boundary = collection of member boundaries) and on PointOnSurface membership in a highest-dimension member"},
 		MinNontrivial:    500,
-		RequiredMonitors: []string{"boundary-set", "boundary-dim", "boundary-of-boundary", "boundary-locates", "boundary-collection", "pos-empty-iff", "pos-finite", "pos-inside", "dimension"},
+		RequiredMonitors: []string{"boundary-set", "boundary-dim", "boundary-of-boundary", "boundary-locates", "boundary-collection", "pos-empty-iff", "pos-finite", "pos-inside", "dimension", "concrete-entry"},
 		Run:              runAll,
 	})
 }
@@ -50,6 +50,7 @@ func judgeBoundary(k *run.K, g geom.Geometry) {
 	if k.Lib("nopanic", func() { b = g.Boundary() }) {
 		return
 	}
+	shared.ConcreteAgree(k, g, "concrete-entry", []shared.Call{{Method: "Boundary"}, {Method: "PointOnSurface"}, {Method: "Dimension"}, {Method: "IsEmpty"}}, shared.NormBoundary)
 	k.Obs("boundary", shared.WKT(b))
 	if g.IsGeometryCollection() {
 		// structural: the collection of the non-empty member boundaries (2D)
